@@ -487,7 +487,7 @@ def run_C06(ctx):
     # between builds shows up here; serialisation and the race detector are C18's)
     rmod = ctx.tlc("MC_C02", cfg="MC_C02_gen.cfg", timeout=3300)
     tpc = os.path.join(ctx.scratch, "c06-conc.ndjson")
-    resc = ctx.vh("conc-stress", "model:" + rmod.out, ctx.seed, 6 if ctx.quick else 60, 16, tpc, env={"VH_SRC_STEP": "7"}, timeout=3000)
+    resc = ctx.vh("conc-stress", "model:" + rmod.out, ctx.seed, 40 if ctx.quick else 400, 16, tpc, env={"VH_SRC_STEP": "7", "VH_BUILD_REPEAT": "25"}, timeout=3000)
     keep = [m for m in (resc.get("mismatches") or []) if m["sig"].startswith("c18:independent")]
     ctx.absorb(dict(resc, mismatches=[dict(m, sig="c06:concurrent-build:" + m["sig"]) for m in keep], n_mismatch=len(keep), nontrivial=resc.get("cases", 0)),
                "V:conc-stress(concurrent builds)")
